@@ -102,11 +102,14 @@ ItemOut(mode, kind, f) ==       \* what a flush of that kind does to item f (a f
     [] mode = "raise" /\ odd   -> VX(30000 + kind)
     [] OTHER                   -> VIv(f)
 
+BatchOut(mode, kind) == IF mode = "raise" THEN VX(30000 + kind) ELSE VNone     \* outcome of the batch object itself
+
 LeafOutStatic(P, g, n, f, TO(_)) ==
   CASE g = "N"   -> VNone
     [] g = "Bad" -> VX(50000)
     [] g \in {"T", "D"} -> TO(n)
     [] g = "I"   -> ItemOut(P.kinds[n].flush, n, f)
+    [] g = "B"   -> BatchOut(P.kinds[n].flush, n)
     [] g = "C"   -> VC(n)
     [] g = "E"   -> VX(200000 + f - FID0)
     [] g = "L"   -> VIv(f)
@@ -165,7 +168,10 @@ AllOps(P) == UNION {{<<t, k, i>> : i \in 1..Len(P.tasks[t].segs[k].ops)} : <<t, 
                      UNION {{<<t, k>> : k \in 1..Len(P.tasks[t].segs)} : t \in 1..NTasks(P)}}
 OpAt(P, x) == P.tasks[x[1]].segs[x[2]].ops[x[3]]
 NoNestKind(P) == \A k \in 1..Len(P.kinds) : P.kinds[k].flush # "nest"
-YieldOnly(P) == NoNestKind(P) /\ \A x \in AllOps(P) : OpAt(P, x).o \notin {"sync", "ival", "cancelb", "fail"}
+RECURSIVE HasBatchLeaf(_)
+HasBatchLeaf(s) == IF s.g = "B" THEN TRUE ELSE IF IsContainer(s) THEN \E i \in 1..Len(s.xs) : HasBatchLeaf(s.xs[i]) ELSE FALSE
+NoBatchLeaves(P) == \A t \in 1..Len(P.tasks) : \A k \in 1..Len(P.tasks[t].segs) : ~HasBatchLeaf(P.tasks[t].segs[k].term.s)
+YieldOnly(P) == NoNestKind(P) /\ NoBatchLeaves(P) /\ \A x \in AllOps(P) : OpAt(P, x).o \notin {"sync", "ival", "cancelb", "fail"}
 HasCtxType(P, ty) == \E c \in 1..Len(P.ctxs) : P.ctxs[c].type = ty
 NoFaultyCtx(P) == \A c \in 1..Len(P.ctxs) : P.ctxs[c].faulty = "-"
 NoSpawnKind(P) == \A k \in 1..Len(P.kinds) : P.kinds[k].flush \notin {"spawn", "throw", "nest"}
